@@ -25,6 +25,11 @@ def run(tier, seed, replay):
             v.violation("alu:" + NAMES[sel], "%d of 131072 points of ALU function %s differ from Alu.tla, e.g. %s"
                         % (n, NAMES[sel], json.dumps(ex)), {"function": NAMES[sel], "examples": ex,
                                                             "cmd": "./check C08"})
+    if res["codes"] != list(range(16)):
+        bad = [(NAMES[i], c) for i, c in enumerate(res["codes"]) if c != i]
+        v.violation("alu:select-code", "the 4-bit select codes do not denote the documented functions: %s (function, code it is reached by)" % bad, {"codes": res["codes"]})
+    if res["lines_bad"]:
+        v.violation("alu:lines", "the ALU's carry / zero / negative outputs do not reach the machine's signal lines unchanged: %s" % json.dumps(res["lines_bad"][:2]), res["lines_bad"])
     table = json.load(open(ref))
     samples = [{"sel": NAMES[s], "a": a, "b": b, "cin": c, "spec_packed(out+256c+512z+1024n)": table[s][a * 512 + b * 2 + c]}
                for (s, a, b, c) in [(0, 200, 100, 0), (0, 1, 1, 1), (5, 3, 252, 0), (7, 0, 255, 1), (10, 129, 0, 1), (15, 0, 77, 1)]]
